@@ -867,6 +867,10 @@ macro_rules! impl_vecdyn_rev {
                         String::new()
                     }
                     Op::PopIf => opt_text(s.pop_if(T::pred)),
+                    Op::ExtendWithinClone(a, b) => {
+                        s.extend_from_within_clone(*a..*b);
+                        String::new()
+                    }
                     Op::Alt(k, inner) => {
                         match (*k, &**inner) {
                             (1, Op::Push(id)) => {
@@ -1065,6 +1069,19 @@ pub fn std_apply_rev(v: &mut Vec<u64>, op: &Op, o: &[Oc]) -> Result<(String, usi
                     d.push_front(vals[k]);
                     used += 1;
                 }
+            }
+            String::new()
+        }
+        Op::ExtendWithinClone(a, b) => {
+            if a > b || *b > d.len() {
+                return Err(());
+            }
+            // the clones are made back to front and each goes in front of the previous one: the copy of the range
+            // ends up in front, in order
+            let part: Vec<u64> = (0..b - a).map(|k| vals[k]).collect();
+            used += part.len();
+            for x in part {
+                d.push_front(x);
             }
             String::new()
         }
